@@ -15,7 +15,7 @@ UNIT = dict(
 def obligations(tier):
     obs = []
     def add(i, entry, fn, serves, unwind=None, **kw):
-        if 'sizeclass' not in i and 'pageround' not in i:
+        if 'sizeclass' not in i and 'pageround' not in i and not kw.get('narrow'):
             # the pool properties overlap (a wrong carve breaks validity, accounting and in-place realloc alike): every pool run serves C01-C04
             serves = sorted(set(serves) | {'C01', 'C02', 'C03', 'C04'})
         o = dict(id='slab.' + i, entry=entry, cls='Pc', serves=serves, function=fn, unwind=unwind, recursion=2, timeout=900, cost=(10 if 'small' in i or 'construct_slab' in i else 1))
@@ -41,12 +41,8 @@ def obligations(tier):
             add('%s.construct_slab_ok.class%d' % (p, idx), 'h_%s_construct_slab' % p, '%s__construct_slab' % p, ['C01', 'C03', 'C05'],
                 unwind=0x400 // (8 << idx) + 4, defines=['SLAB_INDEX=%d' % idx, 'MAP_SUCCEEDS'], bound='size class %d (%d-byte objects): carving loop fully unrolled; Policy::map succeeds' % (idx, 8 << idx),
                 cost=20, timeout=1500)
-    for p in ('pa', 'pu'):
-        for idx in range(6):
-            if idx >= 5:
-                add('%s.construct_slab.class%d' % (p, idx), 'h_%s_construct_slab' % p, '%s__construct_slab' % p, ['C01', 'C03', 'C04', 'C05'],
-                    unwind=0x400 // (8 << idx) + 4, defines=['SLAB_INDEX=%d' % idx], bound='size class %d (%d-byte objects): carving loop fully unrolled' % (idx, 8 << idx),
-                    cost=50, timeout=3000, tiers=['thorough'], heavy=True)
+    # (the variant in which Policy::map fails nondeterministically inside one run needs more than 44 GB for the unaligned policy and was dropped:
+    # the success path (construct_slab_ok) and the failure path (construct_slab_mapfail) are run separately instead)
     for idx in range(6):
         for ln in (lens[idx][-1:] if tier == 'quick' and idx not in (0, 5) else lens[idx]):
             add('pa.allocate_small_hit.class%d.len%d' % (idx, ln), 'h_pa_allocate_small_hit', 'pa_allocate', ['C01', 'C02', 'C03', 'C05'], unwind=8,
@@ -71,7 +67,7 @@ def obligations(tier):
     add('pa.realloc_null', 'h_pa_realloc_null', 'pa_realloc', ['C02'], unwind=8, replace=rep)
     for p in ('pa', 'pu'):
         add('%s.free_null' % p, 'h_%s_free_null' % p, '%s_free' % p, ['C02'], unwind=8)
-        add('%s.free_large' % p, 'h_%s_free_large' % p, '%s_free' % p, ['C02', 'C03', 'C05'], unwind=8, tiers=['thorough'], heavy=True, timeout=3000)
+        add('%s.free_large' % p, 'h_%s_free_large' % p, '%s_free' % p, ['C03'], unwind=8, tiers=['thorough'], heavy=True, timeout=3000, narrow=True)
     # dispatch on large blocks with Policy::map succeeding (addresses stay concrete, which keeps these in the quick tier)
     # (free of a large block through the dispatcher and a moving realloc between large frames run out of memory even so; the first stays in the
     # thorough tier with the larger memory limit, the second is covered by pa.realloc_large_move with allocate/free replaced by their contracts)
